@@ -153,3 +153,12 @@ G5_bound = [
     r('Sphere.min', [SPH]), r('Sphere.max', [SPH]),
 ]
 LAYERS.append(('G5_bound', G5_bound))
+
+NODE = O('_Node')
+G6_tri = [
+    r('triangulation:_area', [NODE, NODE, NODE], name='earcut_area'),
+    r('triangulation:_equals', [NODE, NODE], name='earcut_equals'),
+    r('triangulation:_intersects', [NODE, NODE, NODE, NODE], name='earcut_intersects'),
+    r('triangulation:_point_in_triangle', [Q, Q, Q, Q, Q, Q, Q, Q], name='earcut_point_in_triangle'),
+]
+LAYERS.append(('G6_tri', G6_tri))
